@@ -18,7 +18,7 @@ E(c, g) == [c |-> c, g |-> g]
 SeqsUpTo(S, n) == UNION {[1..k -> S] : k \in 0..n}
 
 F0 == [kind |-> "Type1", enc |-> "dict", base |-> "win", diff |-> <<>>, tu |-> <<>>, file |-> FALSE, std |-> FALSE, ent |-> <<>>,
-       fc |-> 1, widths |-> <<1200, 0, 1450>>, wform |-> "direct", mw |-> -1, fm |-> "m001"]
+       fc |-> 1, widths |-> <<1200, 0, 1450>>, wform |-> "direct", lc |-> "consistent", tuform |-> "bfchar", mw |-> -1, fm |-> "m001"]
 Tu3 == [1..3 -> {"none", "t1", "t2"}]
 TuOne == <<"none", "t1", "none">>
 
@@ -31,8 +31,14 @@ FontsDiff == {[F0 EXCEPT !.diff = d] : d \in SeqsUpTo(DiffElems, MaxDiff)}
 EncPlain == {<<"absent", "">>, <<"name", "std">>, <<"name", "mac">>, <<"name", "win">>, <<"name", "pdf">>,
              <<"name", "other">>}
 EncDict == {<<"dict", "absent">>, <<"dict", "win">>, <<"dict", "mac">>, <<"dict", "other">>}
+\* tuform: how the ToUnicode entries are WRITTEN - one bfchar each, one-code bfrange in increment form, or bfrange in
+\* array form whose array is shorter / longer than the declared range (tolerated: the pairs that exist apply, the rest of
+\* the range gets nothing, extra array elements are ignored).  The model's result does not depend on it.
+TuForms == {"bfchar", "range", "arrshort", "arrlong"}
 FontsPrec ==
   {[F0 EXCEPT !.kind = k, !.enc = eb[1], !.base = eb[2], !.tu = t] : k \in {"Type1", "Type3"}, eb \in EncPlain, t \in Tu3}
+  \cup {[F0 EXCEPT !.enc = eb[1], !.base = eb[2], !.tu = t, !.tuform = tf] :
+          eb \in {<<"absent", "">>, <<"name", "win">>}, t \in Tu3, tf \in TuForms \ {"bfchar"}}
   \cup {[F0 EXCEPT !.kind = k, !.enc = eb[1], !.base = eb[2], !.tu = t, !.diff = d] :
           k \in PrecKinds, eb \in EncDict, t \in Tu3, d \in SeqsUpTo({I(2), N("gA"), N("gBad")}, 2)}
 
@@ -44,11 +50,16 @@ WidthSeqs == {<<>>, <<1000>>, <<1001, 0>>, <<1000, 0, 1451>>, <<1000, 0, 1450, 2
 \* result does not depend on it: the array directly, every second element / every element an indirect reference to a
 \* number, or the array itself an indirect object
 WForms == {"direct", "someref", "allref", "arrayref"}
+\* lc: /LastChar - absent, FirstChar + len(Widths) - 1, one less ("small") or three more ("large").  The advance is the
+\* Widths entry at code - FirstChar; LastChar plays no role in the property, so the result does not depend on it.
+LCs == {"absent", "small", "large"}
 FontsWidth ==
   {[F0 EXCEPT !.kind = k, !.fc = fc, !.widths = w, !.mw = mw, !.wform = wf] :
       k \in {"Type1", "MMType1", "TrueType"}, fc \in {1, 3, 5}, w \in WidthSeqs, mw \in {-1, 500, 555}, wf \in WForms}
   \cup {[F0 EXCEPT !.kind = "Type3", !.fc = fc, !.widths = w, !.mw = mw, !.fm = fm, !.wform = wf] :
       fc \in {1, 3, 5}, w \in WidthSeqs, mw \in {-1, 500, 555}, fm \in {"m001", "m01", "skew"}, wf \in WForms}
+  \cup {[F0 EXCEPT !.kind = k, !.fc = fc, !.widths = w, !.mw = mw, !.lc = lc] :
+      k \in {"Type1", "TrueType", "Type3"}, fc \in {1, 3, 5}, w \in WidthSeqs, mw \in {-1, 555}, lc \in LCs}
   \cup {[F0 EXCEPT !.kind = "Std14", !.enc = eb[1], !.base = eb[2], !.diff = d, !.tu = t] :
       eb \in {<<"dict", "win">>, <<"dict", "absent">>},
       d \in {<<>>, <<I(2), N("gA")>>, <<I(2), N("gBad")>>, <<I(1), N("gB"), N("gA")>>},
